@@ -13,14 +13,32 @@ type ImplicitCase struct {
 	D     *Decls   `json:"decls"`
 	Order []int    `json:"order"` // declaration call order: i < len(Opts) = option i, otherwise argument i-len(Opts)
 	Argv  []string `json:"argv"`
+	// Argv2, when non-nil, is a second command line given to the SAME application object after Argv
+	Argv2 []string `json:"argv2,omitempty"`
 }
 
 func runOrdered(c *ImplicitCase, spec string, argv []string) (Outcome, string) {
-	var out Outcome
+	o, u, _, _ := runOrderedSeq(c, spec, argv, nil)
+	return o, u
+}
+
+func usageLine(stderr string) string {
+	for _, l := range strings.Split(stderr, "\n") {
+		if strings.HasPrefix(strings.TrimSpace(l), "Usage:") {
+			return normWS(l)
+		}
+	}
+	return ""
+}
+
+// runOrderedSeq runs argv and then (when argv2 != nil) argv2 on the same application object.
+func runOrderedSeq(c *ImplicitCase, spec string, argv, argv2 []string) (Outcome, string, Outcome, string) {
+	var out, out2 Outcome
+	var app *cli.Cli
+	var hs []Holder
 	WithSwap(&out, func() {
-		app := cli.App("app", "")
+		app = cli.App("app", "")
 		app.ErrorHandling = flag.ContinueOnError
-		var hs []Holder
 		for _, idx := range c.Order {
 			if idx < len(c.D.Opts) {
 				o := c.D.Opts[idx]
@@ -63,14 +81,22 @@ func runOrdered(c *ImplicitCase, spec string, argv []string) (Outcome, string) {
 			out.HasErr, out.Err = true, err.Error()
 		}
 	})
-	usage := ""
-	for _, l := range strings.Split(out.Stderr, "\n") {
-		if strings.HasPrefix(strings.TrimSpace(l), "Usage:") {
-			usage = normWS(l)
-			break
-		}
+	if argv2 != nil && out.Panic == "" {
+		WithSwap(&out2, func() {
+			app.Action = func() {
+				out2.Accept = true
+				out2.Bind = Snapshot(hs)
+				out2.Raw = map[string][]string{}
+				for _, h := range hs {
+					out2.Raw[h.Key] = append([]string{}, h.Rec.Vals...)
+				}
+			}
+			if err := app.Run(append([]string{"app"}, argv2...)); err != nil {
+				out2.HasErr, out2.Err = true, err.Error()
+			}
+		})
 	}
-	return out, usage
+	return out, usageLine(out.Stderr), out2, usageLine(out2.Stderr)
 }
 
 // explicitSpec assembles "[OPTIONS] ARG1 ARG2 ..." from the statement.
@@ -122,6 +148,20 @@ func CheckC16(c *ImplicitCase, st *Stats) *Violation {
 		if v := modelAgrees("C16", d, ast, c.Argv, &re, st); v != nil {
 			return v
 		}
+	}
+	if c.Argv2 != nil {
+		// the same two command lines, one after the other, on one application object of each variant
+		_, _, si, sui := runOrderedSeq(c, "", c.Argv, c.Argv2)
+		_, _, se, sue := runOrderedSeq(c, spec, c.Argv, c.Argv2)
+		if !sameOutcome(&si, &se) || sui != sue {
+			return Violf("second command line %q on the same application object (after %q): without spec -> %s usage %q ; with the explicit spec %q -> %s usage %q; decls [%s] order %v",
+				c.Argv2, c.Argv, describe(&si), sui, spec, describe(&se), sue, FmtDecls(c.D), c.Order)
+		}
+		_, _, _, hi := runOrderedSeq(c, "", c.Argv, []string{"--help"})
+		if hi != want {
+			return Violf("usage line shown by a second run (--help after %q) of the command without spec is %q, expected %q", c.Argv, hi, want)
+		}
+		st.Class("sequence:two-runs-on-one-app")
 	}
 	if ri.Accept {
 		st.Class("verdict:accept")
